@@ -25,30 +25,47 @@ ASSUMPTIONS = [
     "reference for the derivative of the computed quantity",
     "no functional touches a quantity that is exactly zero and non-differentiable there (std of an exact initial state at t0)",
 ]
-REQUIRED_OBS = {"derivative_triples": 60, "groups_mean": 10, "groups_std": 10, "groups_loss_terminal": 5, "groups_loss_timeseries": 3}
+REQUIRED_OBS = {"derivative_triples": 60, "reverse_mode_taken": 40, "groups_mean": 10, "groups_std": 10, "groups_loss_terminal": 5, "groups_loss_timeseries": 3}
 TIMEOUT = {"quick": 1800, "thorough": 3500}
 GRID = [0.0, 0.08, 0.2, 0.27, 0.4]
 
 
 def cases(tier, seed):
     rng = util.rng_for(ID, tier, seed)
+    combos = [(f, c, st, ts) for ts in ("ts1", "ts0") for f in configs.FACTS for c in configs.CALS for st in ("filter", "fixedinterval")]
+    if tier == "quick":
+        # all 18 first-order-linearisation configurations (they exercise the Jacobian path) + 6 rotating TS0 ones
+        ts0 = combos[18:]
+        rng.shuffle(ts0)
+        chosen = combos[:18] + ts0[:6]
+    else:
+        chosen = combos * 6
     out = []
-    n = 36 if tier == "quick" else 216
-    for k in range(n):
+    for k, (fact, cal, strategy, ts) in enumerate(chosen):
         out.append(
             {
-                "id": f"c16-{k}", "fact": configs.FACTS[k % 3], "cal": configs.CALS[(k // 3) % 3],
-                "strategy": ["filter", "fixedinterval"][(k // 9) % 2], "ts": ["ts0", "ts1"][(k // 18) % 2] if tier == "thorough" else rng.choice(["ts0", "ts1"]),
+                "id": f"c16-{k}", "fact": fact, "cal": cal, "strategy": strategy, "ts": ts,
                 "init": rng.choice(["exact", "inexact"]), "equal_noise": rng.random() < 0.5, "nu": rng.randint(1, 3),
                 "theta": {"a": rng.uniform(0.5, 1.5), "b": rng.uniform(0.2, 0.8), "u0": rng.uniform(0.6, 1.4), "base": rng.uniform(0.5, 2.0), "noise": rng.uniform(0.05, 0.3)},
-                "seedw": rng.randrange(10**9), "cost": 30.0,
+                "seedw": rng.randrange(10**9), "cost": 30.0, "all_reverse": tier == "thorough",
             }
         )
     return out
 
 
-def _build_F(case, group, param):
-    """Scalar function of one parameter (others fixed at case['theta'])."""
+def _groups(case):
+    groups = ["mean", "std", "loss_terminal"]
+    if case["cal"] in ("mle", "dynamic"):
+        groups.append("scale")
+    if case["strategy"] == "fixedinterval":
+        groups.append("loss_timeseries")
+    return groups
+
+
+def _build_F(case, param, only=None):
+    """Vector-valued function of one parameter (others fixed at case['theta']): one entry per output group
+    (or the scalar of the single group ``only``: reverse mode is taken per group, because a NaN cotangent path of
+    one output would otherwise poison the others through 0*NaN - an artefact of stacking, not of the library)."""
     import jax
     import jax.numpy as jnp
     from probdiffeq import ivpsolve, probdiffeq
@@ -61,7 +78,10 @@ def _build_F(case, group, param):
     w_std = jnp.asarray(r.uniform(0.5, 1.5, size=(T - 1, 2)))
     data_T = jnp.asarray(r.normal(size=(2,)) * 0.1 + 0.5)
     data_ts = jnp.asarray(r.normal(size=(T, 2)) * 0.1 + 0.5)
-    noise_shape = jnp.ones((T,)) if case["equal_noise"] else jnp.asarray(r.uniform(0.7, 1.4, size=(T,)))
+    # equal noise: identical over time *and* dimensions (the situation of repeated singular values)
+    noise_t = jnp.ones((T,)) if case["equal_noise"] else jnp.asarray(r.uniform(0.7, 1.4, size=(T,)))
+    noise_d = jnp.asarray([1.0, 1.0]) if case["equal_noise"] else jnp.asarray([1.0, 1.3])
+    groups = _groups(case) if only is None else [only]
 
     def F(x):
         th = dict(th0)
@@ -86,103 +106,98 @@ def _build_F(case, group, param):
         else:
             solver = probdiffeq.solver_dynamic(strategy=strat, constraint=cst, stop_gradient_through_calibration=False)
         sol = ivpsolve.solve_fixed_grid(solver=solver)(prior, grid=jnp.asarray(GRID))
-        if group == "mean":
-            return jnp.sum(w_mean * sol.u.mean[0][1:]) + 0.1 * jnp.sum(w_mean * sol.u.mean[1][1:])
-        if group == "std":
-            s = sol.u.std[0][1:]
-            s = s[:, None] * jnp.ones((1, 2)) if s.ndim == 1 else s
-            return jnp.sum(w_std * s)
-        if group == "scale":
-            return jnp.sum(sol.output_scale[-1])
         noise = th["noise"]
-        if group == "loss_terminal":
-            marg = jax.tree.map(lambda s: s[-1], sol.u)
-            std = noise if fact == "isotropic" else noise * jnp.asarray([1.0, 1.3])
-            return probdiffeq.loss_lml_terminal_values()(data_T, marginals=marg, std=std)
-        if group == "loss_timeseries":
-            std = noise * noise_shape if fact == "isotropic" else noise * noise_shape[:, None] * jnp.asarray([[1.0, 1.3]])
-            return probdiffeq.loss_lml_timeseries()(data_ts, posterior=sol.solution_full.posterior, std=std)
-        raise ValueError(group)
+        out = []
+        for group in groups:
+            if group == "mean":
+                out.append(jnp.sum(w_mean * sol.u.mean[0][1:]) + 0.1 * jnp.sum(w_mean * sol.u.mean[1][1:]))
+            elif group == "std":
+                sd = sol.u.std[0][1:]
+                sd = sd[:, None] * jnp.ones((1, 2)) if sd.ndim == 1 else sd
+                out.append(jnp.sum(w_std * sd))
+            elif group == "scale":
+                out.append(jnp.sum(sol.output_scale[-1]))
+            elif group == "loss_terminal":
+                marg = jax.tree.map(lambda s_: s_[-1], sol.u)
+                std = noise if fact == "isotropic" else noise * noise_d
+                out.append(probdiffeq.loss_lml_terminal_values()(data_T, marginals=marg, std=std))
+            else:
+                std = noise * noise_t if fact == "isotropic" else noise * noise_t[:, None] * noise_d[None, :]
+                out.append(probdiffeq.loss_lml_timeseries()(data_ts, posterior=sol.solution_full.posterior, std=std))
+        return jnp.stack(out) if only is None else out[0]
 
-    return F
-
-
-def _pairs(case):
-    groups = ["mean", "std", "loss_terminal"]
-    if case["cal"] in ("mle", "dynamic"):
-        groups.append("scale")
-    if case["strategy"] == "fixedinterval":
-        groups.append("loss_timeseries")
-    out = []
-    for g in groups:
-        params = ["a", "u0", "base"]
-        if g.startswith("loss"):
-            params.append("noise")
-        for p in params:
-            out.append((g, p))
-    return out
+    return F, groups
 
 
 def run_case(case):
     import jax
 
     viols, obs, sigs = [], {"cases": 1}, []
-    pairs = _pairs(case)
-    # a rotating subset keeps the quick tier affordable; the thorough tier runs all pairs
-    r = np.random.default_rng(case["seedw"] + 1)
-    if len(pairs) > 6:
-        idx = sorted(r.choice(len(pairs), size=6, replace=False))
-        pairs = [pairs[i] for i in idx]
     worst = {}
-    for group, param in pairs:
-        F = _build_F(case, group, param)
+    for param in ("a", "u0", "base", "noise"):
+        F, groups = _build_F(case, param)
         x0 = float(case["theta"][param])
         Fj = jax.jit(F)
-        tags = {"fact": case["fact"], "cal": case["cal"], "strategy": case["strategy"], "ts": case["ts"], "init": case["init"],
-                "equal_noise": case["equal_noise"], "group": group, "param": param}
-        f0 = float(Fj(x0))
-        fwd = float(jax.jit(lambda x: jax.jvp(F, (x,), (1.0,))[1])(x0))
-        rev = float(jax.jit(jax.grad(F))(x0))
-        obs["derivative_triples"] = obs.get("derivative_triples", 0) + 1
-        obs["groups_" + group] = obs.get("groups_" + group, 0) + 1
-        if not (math.isfinite(f0)):
-            viols.append(util.viol("value_finite", f"{group}: value {f0!r}", tags=tags))
-            continue
-        finite = math.isfinite(fwd) and math.isfinite(rev)
-        if not finite:
-            viols.append(util.viol("derivative_finite", f"d {group} / d {param}: forward {fwd!r}, reverse {rev!r} (value {f0:.6g})", tags={**tags, "fwd_finite": math.isfinite(fwd), "rev_finite": math.isfinite(rev)}))
-            continue
-        # Richardson central differences
+        f0 = np.asarray(Fj(x0), float)
+        fwd = np.asarray(jax.jit(lambda x: jax.jvp(F, (x,), (1.0,))[1])(x0), float)
+        # reverse mode per group (separate scalar functions); the quick tier rotates through two groups per parameter
+        rev = np.full(len(groups), np.nan)
+        rev_done = np.zeros(len(groups), dtype=bool)
+        pidx = ("a", "u0", "base", "noise").index(param)
+        chosen = range(len(groups)) if case.get("all_reverse") else [(pidx * 2 + j + case["seedw"]) % len(groups) for j in range(2)]
+        if param == "noise":
+            chosen = [gi for gi, g in enumerate(groups) if g.startswith("loss")]
+        for gi in chosen:
+            Fg, _ = _build_F(case, param, only=groups[gi])
+            rev[gi] = float(jax.jit(jax.grad(Fg))(x0))
+            rev_done[gi] = True
         h = 2e-3 * max(1.0, abs(x0))
 
         def D(hh):
-            return (float(Fj(x0 + hh)) - float(Fj(x0 - hh))) / (2 * hh)
+            return (np.asarray(Fj(x0 + hh), float) - np.asarray(Fj(x0 - hh), float)) / (2 * hh)
 
         d1, d2, d3 = D(h), D(h / 2), D(h / 4)
         r1, r2 = (4 * d2 - d1) / 3, (4 * d3 - d2) / 3
-        fd = r2
-        bar = abs(r2 - r1) + 1e-10 * abs(f0) / h
-        scale = abs(fd) + 1e-8 * abs(f0) / max(abs(x0), 1e-3) + 1e-300
-        nat = abs(f0) / max(abs(x0), 1e-3)  # natural derivative scale; derivatives far below it are rounding noise
-        e_fr = abs(fwd - rev) / (abs(rev) + 1e-2 * nat + 1e-300)
-        e_fd = max(abs(fwd - fd), abs(rev - fd)) / scale
-        worst[f"{group}/{param}"] = e_fd
-        obs["max_fwd_rev_dev"] = max(obs.get("max_fwd_rev_dev", 0.0), e_fr)
-        if e_fr > 1e-8:
-            viols.append(util.viol("forward_vs_reverse", f"d {group} / d {param}: forward {fwd!r} vs reverse {rev!r}", tags=tags))
-        tol = 1e-5 + 10 * bar / scale
-        if e_fd > tol:
-            zero_ad = abs(fwd) <= 1e-12 * (abs(fd) + 1e-300) + 1e-300
-            viols.append(
-                util.viol(
-                    "ad_vs_finite_differences",
-                    f"d {group} / d {param}: AD gives {fwd!r} (reverse {rev!r}) but Richardson differences give {fd!r} +- {bar:.2g} (rel dev {e_fd:.3g})",
-                    tags={**tags, "ad_exactly_zero": bool(zero_ad), "rel_dev": e_fd},
-                    witness={"value": f0, "x0": x0, "differences": [d1, d2, d3]},
+        for gi, group in enumerate(groups):
+            if param == "noise" and not group.startswith("loss"):
+                continue  # the noise level only enters the losses
+            tags = {"fact": case["fact"], "cal": case["cal"], "strategy": case["strategy"], "ts": case["ts"], "init": case["init"],
+                    "equal_noise": case["equal_noise"], "group": group, "param": param}
+            obs["derivative_triples"] = obs.get("derivative_triples", 0) + 1
+            obs["groups_" + group] = obs.get("groups_" + group, 0) + 1
+            v0, vf = float(f0[gi]), float(fwd[gi])
+            vr = float(rev[gi]) if rev_done[gi] else vf  # reverse not taken for this pair in this run
+            obs["reverse_mode_taken"] = obs.get("reverse_mode_taken", 0) + int(rev_done[gi])
+            if not math.isfinite(v0):
+                viols.append(util.viol("value_finite", f"{group}: value {v0!r}", tags=tags))
+                continue
+            if not (math.isfinite(vf) and math.isfinite(vr)):
+                viols.append(util.viol("derivative_finite", f"d {group} / d {param}: forward {vf!r}, reverse {vr!r} (value {v0:.6g})",
+                                       tags={**tags, "fwd_finite": math.isfinite(vf), "rev_finite": math.isfinite(vr)}))
+                continue
+            fd = float(r2[gi])
+            bar = abs(float(r2[gi] - r1[gi])) + 1e-10 * abs(v0) / h
+            nat = abs(v0) / max(abs(x0), 1e-3)  # natural derivative scale; derivatives far below it are rounding noise
+            scale = abs(fd) + 1e-8 * nat + 1e-300
+            e_fr = abs(vf - vr) / (abs(vr) + 1e-2 * nat + 1e-300)
+            e_fd = max(abs(vf - fd), abs(vr - fd)) / scale
+            worst[f"{group}/{param}"] = e_fd
+            obs["max_fwd_rev_dev"] = max(obs.get("max_fwd_rev_dev", 0.0), e_fr)
+            if e_fr > 1e-8:
+                viols.append(util.viol("forward_vs_reverse", f"d {group} / d {param}: forward {vf!r} vs reverse {vr!r}", tags=tags))
+            tol = 1e-5 + 10 * bar / scale
+            if e_fd > tol:
+                zero_ad = abs(vf) <= 1e-12 * (abs(fd) + 1e-300) + 1e-300
+                viols.append(
+                    util.viol(
+                        "ad_vs_finite_differences",
+                        f"d {group} / d {param}: AD gives {vf!r} (reverse {vr!r}) but Richardson differences give {fd!r} +- {bar:.2g} (rel dev {e_fd:.3g})",
+                        tags={**tags, "ad_exactly_zero": bool(zero_ad), "rel_dev": e_fd},
+                        witness={"value": v0, "x0": x0, "differences": [float(d1[gi]), float(d2[gi]), float(d3[gi])]},
+                    )
                 )
-            )
-        if abs(fd) > 1e-8 * (abs(f0) + 1e-12):
-            sigs.append(f"{case['fact']}|{case['cal']}|{case['strategy']}|{case['ts']}|{case['init']}|{group}|{param}")
+            if abs(fd) > 1e-8 * (abs(v0) + 1e-12):
+                sigs.append(f"{case['fact']}|{case['cal']}|{case['strategy']}|{case['ts']}|{case['init']}|{group}|{param}")
     obs["max_ad_fd_dev"] = max(worst.values()) if worst else 0.0
     sample = {"config": {k: case[k] for k in ("fact", "cal", "strategy", "ts", "init", "equal_noise", "nu")}, "rel_dev_per_pair": worst}
     return {"violations": viols, "obs": obs, "sigs": sigs, "sample": sample}
